@@ -10,6 +10,8 @@
 
 #include "stdinc.h"
 
+#include "verif_hooks.h"
+
 #include "p2bin.rsc"
 
 #include "addrspace.h"
@@ -90,7 +92,7 @@ static void OpenTarget(void) {
     memset(Buffer, FillVal, BufferSize);
 
     Rest = RealFileLen;
-    while (Rest != 0) {
+    while (Rest != 0) VERIF_LOOP(p2bin_fill) {
         Trans = min(Rest, BufferSize);
         if (fwrite(Buffer, 1, Trans, TargFile) != Trans) {
             ChkIO(TargName);
@@ -111,7 +113,7 @@ static void CloseTarget(void) {
 
         rewind(TargFile);
         bpos = ((StartHeader > 0) ? 0 : -1 - StartHeader) << 3;
-        for (z = 0; z < AHeader; z++) {
+        for (z = 0; z < AHeader; z++) VERIF_LOOP(p2bin_hdr) {
             Buffer[z] = (EntryAdr >> bpos) & 0xff;
             bpos += (StartHeader > 0) ? 8 : -8;
         }
@@ -139,14 +141,14 @@ static void CloseTarget(void) {
         Size = Rest = FileSize(TargFile) - AHeader - 1;
 
         Sum = 0;
-        while (Rest > 0) {
+        while (Rest > 0) VERIF_LOOP(p2bin_sum) {
             Trans = min(Rest, BufferSize);
             Rest -= Trans;
             Read = fread(Buffer, 1, Trans, TargFile);
             if (Read != Trans) {
                 ChkIO(TargName);
             }
-            for (z = 0; z < Trans; Sum += Buffer[z++])
+            for (z = 0; z < Trans; Sum += Buffer[z++]) VERIF_LOOP(p2bin_sum_inner)
                 ;
         }
         errno = 0;
@@ -203,7 +205,7 @@ static void ProcessFile(char const* FileName, LongWord Offset) {
 
     SumLen = 0;
 
-    do {
+    do VERIF_LOOP(p2bin_rec) {
         ReadRecordHeader(&InpHeader, &InpCPU, &InpSegment, &Gran, FileName, SrcFile);
 
         if (InpHeader == FileHeaderStartAdr) {
@@ -264,7 +266,7 @@ static void ProcessFile(char const* FileName, LongWord Offset) {
 
                 /* umkopieren */
 
-                while (ErgLen > 0) {
+                while (ErgLen > 0) VERIF_LOOP(p2bin_copy) {
                     TransLen = min(BufferSize, ErgLen);
                     if (fread(Buffer, 1, TransLen, SrcFile) != TransLen) {
                         ChkIO(FileName);
@@ -275,7 +277,7 @@ static void ProcessFile(char const* FileName, LongWord Offset) {
                         LongWord Addr;
 
                         ResLen = 0;
-                        for (Addr = 0; Addr < (LongWord)TransLen; Addr++) {
+                        for (Addr = 0; Addr < (LongWord)TransLen; Addr++) VERIF_LOOP(p2bin_lane) {
                             if (((ErgStart * Gran + Addr) & ANDMask) == ANDEq) {
                                 Buffer[ResLen++] = Buffer[Addr];
                             }
@@ -362,7 +364,7 @@ static void MeasureFile(char const* FileName, LongWord Offset) {
         FormatError(FileName, getmessage(Num_FormatInvHeaderMsg));
     }
 
-    do {
+    do VERIF_LOOP(p2bin_measure) {
         ReadRecordHeader(&Header, &CPU, &Segment, &Gran, FileName, f);
 
         if (Header == FileHeaderDataRec) {
